@@ -74,7 +74,17 @@ def build(case):
         leaves.append(M.NOT(fa))
         leaves.append(M.NOT(M.OR(fa, fb)))
         leaves.append(M.CELLC(3 + leaves.index(fb) - 2))
-    deck = probe_deck([sur], leaves, title=f'C03 {kind} {fam}')
+    # unions none of whose operands is a plain intersection of surfaces: the
+    # outside of the body (itself a union of facets) cut by two spheres
+    cen0 = [float(v) for v in params[0:3]]
+    extra = [M.Surf(50, 's', [cen0[0] + 0.5, cen0[1], cen0[2], 6.0]),
+             M.Surf(51, 's', [cen0[0], cen0[1] - 0.7, cen0[2] + 0.4, 7.5])]
+    leaves.append(M.OR(M.AND(M.S(1), M.S(-50)), M.AND(M.S(1), M.S(-51))))
+    if facets:
+        leaves.append(M.OR(M.AND(M.S(1), M.S(-50)),
+                           M.AND(M.NOT(M.AND(case.rng.choice(facets),
+                                             M.S(50))), M.S(-51))))
+    deck = probe_deck([sur] + extra, leaves, title=f'C03 {kind} {fam}')
     deck.tags.update({f'kind.{kind}', f'{kind}.{fam}'})
     deck.case_motion = None
     if with_trcl:
